@@ -114,7 +114,7 @@ var allReads = []string{"get", "has", "getwithindex", "getbyindex", "iterate", "
 	"versionedproof", "hash", "workinghash", "imhash", "getversioned", "getimmutable", "export"}
 
 var baseWeights = map[string]int{"set": 30, "remove": 12, "save": 18, "rollback": 3, "reopen": 7, "prune": 7, "prune_refuse": 1,
-	"lvfo": 3, "dvf": 2, "setnil": 1, "read": 0, "hop": 0, "iter": 0, "pin": 0, "unpin": 0, "lvfo_invalid": 0}
+	"lvfo": 3, "dvf": 2, "setnil": 1, "read": 0, "hop": 0, "iter": 0, "pin": 0, "unpin": 0, "lvfo_invalid": 0, "replay": 0}
 
 func weights(over map[string]int) map[string]int {
 	m := map[string]int{}
@@ -162,6 +162,9 @@ func GenOp(t *rapid.T, w *World, p *Profile) Op {
 		}
 	}
 	add("save", saveOK)
+	if vs := w.Vers[w.WorkingVersion()]; vs != nil && vs.Logged && len(vs.Writes) > 0 && !w.Dirty && w.Cur < w.Latest && w.Vers[w.Cur] != nil {
+		add("replay", true)
+	}
 	add("rollback", true)
 	add("reopen", true)
 	add("prune", w.Latest > 0)
@@ -206,7 +209,7 @@ func GenOp(t *rapid.T, w *World, p *Profile) Op {
 		return Op{Kind: "setnil", K: genKey(t, w.WKV)}
 	case "remove":
 		return Op{Kind: "remove", K: w.normalKey(genRemoveKey(t, w.WKV))}
-	case "save", "rollback":
+	case "save", "rollback", "replay":
 		return Op{Kind: kind}
 	case "reopen":
 		c := genCfg(t, false)
